@@ -21,9 +21,9 @@ PARTIAL = {
     "C12": "PARTIAL: leakage is reduced by theorem to a bound on the window transform (exact sinusoid response, DFT-even non-negative window, Goertzel at fractional bins); "
            "the numeric side-lobe bound of the sampled Kaiser window itself is NOT a theorem and is measured on the real single-bin path",
     "C18": "PARTIAL: section/cascade closed form, Hermitian synthesis, band mask proved; the '~1 dB' ripple sentence is an approximation-theory bound that is measured, not proved",
-    "C19": "PARTIAL: RMS spec/monotone/(super)additive and order-0 detrending proved; orders>=1 rest on the np.polyfit least-squares contract plus the projection lemmas; Parseval 'within a few percent' is statistical and only probed",
-    "C20": "PARTIAL: attribute identities, None tables and interpolation proved; DataFrame export, copy and pickle are Python object-protocol facts decided by the oracle on the real objects",
-    "C13": "PARTIAL: constructor writes no caller buffer (generated op list + heap model), layout and sanitising lemmas, finiteness of every guarded attribute proved; NumPy aliasing rules are validated by correspondence; overflow near 1e154 is outside the model",
+    "C19": "PARTIAL: RMS spec/monotone/(super)additive and order-0 detrending proved on the translated functions; df_detrend translated whole over a frame value model (each selected numeric column = polynomial_detrend of the input column, input untouched); orders>=1 rest on the np.polyfit least-squares contract plus the projection lemmas; Parseval 'within a few percent' is statistical and only probed",
+    "C20": "PARTIAL: attribute identities, None tables, interpolation, the export column rule and what the result object stores (D always one start vector per bin, every field value-preserved) proved on translated code; copy and pickle are Python object-protocol facts decided by the oracle on the real objects",
+    "C13": "PARTIAL: the constructor is translated whole and proved equal to its specification (layout independence, 2x2 convention, rejection iff, stored record = zero-filled record, config table); it writes no caller buffer (generated op list + heap model); finiteness of every guarded attribute proved; NumPy aliasing rules are validated by correspondence; overflow near 1e154 is outside the model (known finding D11)",
     "C14": "PARTIAL: any-schedule lemma for map loops (map-ness certified by the translator), history- and access-order independence of the state-machine models proved; LLVM/hardware memory model not modelled",
     "C05": "PARTIAL (glue): cached per-bin loop = plain map, band restriction commutes, single-bin segmentation in range, Kaiser window shape proved on hand models tied by correspondence; np.kaiser's I0 accuracy is compared numerically",
     "C15": "full given the stated solver contract (a solution of the normal equations is returned)",
